@@ -30,7 +30,7 @@ func init() {
 func (c10) ID() string    { return "C10" }
 func (c10) Level() string { return "exploration" }
 func (c10) Rule() string {
-	return "A case is a real git repository whose policy protects main (developers 1 and 2) and, by file rules, one exact odd-named path (one of 8 names with a non-ASCII character, space, backslash, *, ?, [, quote or tab; the rule's pattern is that name with pattern metacharacters backslash-escaped) and everything under a directory whose name contains a space (developer 1 only). The harness writes — with NUL-delimited plumbing and in-process signatures — a commit graph (linear commits, a root commit, a merge of a side branch) over an alphabet of path names with space, tab, quote, backslash, control and multi-byte characters and glob metacharacters, signed by developer 1, developer 2 or nobody, and records 1-3 pushes of main. Oracle: (i) GetFilePathsChangedByCommit, GetAllFilesInTree and GetEntriesInTree return exactly the names the harness wrote; (ii) full verification must reject when a non-merge commit newly introduced to main changes a protected path without developer 1's signature, and must accept when every commit that changes a protected path is signed by developer 1. SimStore slice (10 of every 16 run indexes): a policy with a branch rule and 0-4 file rules (exact path, directory prefix with one or two patterns, a delegated file namespace with its own principal, thresholds 1-2), 1-7 pushes of 1-3 commits each (linear, or a side branch merged) signed by developers, an outsider or nobody, authorizations by any subset of developers for exactly the pushed change, rules coming, going and changing hands between pushes; full and latest-only verification at seeded points. Oracle there: the reference model (model.DecideFiles): every path changed by every non-merge commit newly introduced by an examined entry must, if file rules match it, be vouched for by enough of a matching rule's principals (commit signature plus the entry's approvals); merges next to protected paths make the verdict unspecified. Distinct = distinct (name classes touched, graph shape, signer pattern, verdict | per-entry decision pattern, verdict vector); non-trivial = a protected path was changed by a newly introduced commit and the verdict was specified."
+	return "A case is a real git repository whose policy protects main (developers 1 and 2) and, by file rules, one exact odd-named path (one of 10 names with a non-ASCII character, space — inner, leading or trailing —, backslash, *, ?, [, quote or tab; the rule's pattern is that name with pattern metacharacters backslash-escaped) and everything under a directory whose name contains a space (developer 1 only). The harness writes — with NUL-delimited plumbing and in-process signatures — a commit graph (linear commits, a root commit, a merge of a side branch) over an alphabet of path names with space, tab, quote, backslash, control and multi-byte characters and glob metacharacters, signed by developer 1, developer 2 or nobody, and records 1-3 pushes of main. Oracle: (i) GetFilePathsChangedByCommit, GetAllFilesInTree and GetEntriesInTree return exactly the names the harness wrote; (ii) full verification must reject when a non-merge commit newly introduced to main changes a protected path without developer 1's signature, and must accept when every commit that changes a protected path is signed by developer 1. SimStore slice (10 of every 16 run indexes): a policy with a branch rule and 0-4 file rules (exact path, directory prefix with one or two patterns, a delegated file namespace with its own principal, thresholds 1-2), 1-7 pushes of 1-3 commits each (linear, or a side branch merged) signed by developers, an outsider or nobody, authorizations by any subset of developers for exactly the pushed change, rules coming, going and changing hands between pushes; full and latest-only verification at seeded points. Oracle there: the reference model (model.DecideFiles): every path changed by every non-merge commit newly introduced by an examined entry must, if file rules match it, be vouched for by enough of a matching rule's principals (commit signature plus the entry's approvals); merges next to protected paths make the verdict unspecified. Distinct = distinct (name classes touched, graph shape, signer pattern, verdict | per-entry decision pattern, verdict vector); non-trivial = a protected path was changed by a newly introduced commit and the verdict was specified."
 }
 func (c10) Components() map[string]string {
 	return map[string]string{"pkg/gitinterface (changes.go, tree.go, log.go, commit.go)": "real", "internal/policy verifier (file rules)": "real", "pkg/rsl": "real", "git 2.39 on tmpfs": "real", "history writer": "harness plumbing (mktree -z, hash-object, in-process sshsig)", "gitstore.Storer in the SimStore slice": "stub (SimStore; its changed-path computation was compared call by call with real git by `verifsim diffstore`)"}
@@ -40,7 +40,7 @@ func (c10) Assumptions() []string {
 }
 
 var c10Names = []string{
-	"plain.txt", "docs/readme", "sp ace", "tab\tname", "qu\"ote", "back\\slash", "ünï.txt", "ctl\x01x", "st*r", "q?m", "[br]",
+	"plain.txt", "docs/readme", "sp ace", " lead", "\tlead", "trail ", "~last \t", "tab\tname", "qu\"ote", "back\\slash", "ünï.txt", "ctl\x01x", "st*r", "q?m", "[br]",
 	"secret dir/key", "secret dir/sp ace", "secret dir/ü", "secret dir/a\"b", "secret dir/deep/x y", "secret dir/st*r", "secret dir/back\\slash",
 }
 
@@ -48,7 +48,7 @@ var c10Names = []string{
 // pattern is the name with the pattern syntax's own metacharacters (backslash,
 // *, ?, [) escaped by a backslash, as the documented fnmatch syntax requires
 // for a pattern that is to match exactly that name.
-var c10ExactNames = []string{"ünï.txt", "sp ace", "back\\slash", "st*r", "q?m", "[br]", "qu\"ote", "tab\tname"}
+var c10ExactNames = []string{"ünï.txt", "sp ace", " lead", "~last \t", "back\\slash", "st*r", "q?m", "[br]", "qu\"ote", "tab\tname"}
 
 func c10EscapePattern(name string) string {
 	var b strings.Builder
